@@ -134,6 +134,19 @@ class Kernel:
         self.cur_proc().children.append(p)
         return p
 
+    def note_wait(self, target):
+        """the current actor is about to wait (without time-out) for `target` (a lock name or a pseudo-lock): remember what it holds"""
+        a = self.cur_actor()
+        if a is None:
+            return
+        if not hasattr(self, "lock_pairs"):
+            self.lock_pairs = set()
+        for s_ in list(SimSemLock.registry.values()):
+            if s_.name != target and a.name in s_.holders:
+                self.lock_pairs.add((s_.name, target, a.role))
+        for pseudo in getattr(a, "pseudo_held", ()) or (("PWorker",) if a.role == "worker" else ()):
+            self.lock_pairs.add((pseudo, target, a.role))
+
     def cur_actor(self):
         return self.by_thread.get(threading.get_ident())
 
@@ -280,6 +293,8 @@ class SimSemLock:
             if self.value > 0:
                 return self._take(me)
             return False
+        if timeout is None:
+            k.note_wait(self.name)      # an untimed wait entered while holding other locks: one edge of the lock order per held lock
         v = k.park(f"sem.acquire {self.name}", enabled=lambda: self.value > 0,
                    can_timeout=timeout is not None, obj=self)
         if v == "timeout":
